@@ -8,7 +8,9 @@ base=HEAD; [ -f /verif/benign/$id/base ] && base=$(cat /verif/benign/$id/base)  
 git -C /repo worktree add -q --detach $wt $base || exit 9
 cleanup() { git -C /repo worktree remove --force $wt 2>/dev/null; git -C /repo worktree prune; }
 trap cleanup EXIT
-git -C $wt apply /verif/benign/$id/patch.diff || { echo "$id: patch does not apply"; exit 8; }
+if git -C $wt apply --check /verif/benign/$id/patch.diff 2>/dev/null; then git -C $wt apply /verif/benign/$id/patch.diff
+elif [ -f /verif/benign/$id/patch.rebased.diff ] && git -C $wt apply --check /verif/benign/$id/patch.rebased.diff 2>/dev/null; then git -C $wt apply /verif/benign/$id/patch.rebased.diff
+else echo "$id: patch does not apply"; exit 8; fi
 for p in $props; do
   out=$(cd /verif && VERIF_REPO=$wt ./check $p --tier quick 2>&1); rc=$?
   echo "benign=$id check=$p rc=$rc :: $(echo "$out" | grep -E '^VIOLATION|MACHINERY|MODEL-DRIFT|Traceback' | head -3 | cut -c1-260 | tr '\n' '|')"
